@@ -68,14 +68,14 @@ def mk(name, filt, groups):
 # R alphabets: all (rx_active, rx_valid) x bytes x addresses.  The byte sets contain the five token PID bytes, a data PID and
 # bytes chosen so that several byte pairs carry a valid CRC5: (2d,a5) -> address 0x2d ep 10, (c3,c3) -> address 0x43 ep 7,
 # (3a,3d) -> address 0x3a ep 10, (3d,e1) -> address 0x3d ep 2; every byte also occurs as PID, payload and CRC byte.
-def alphabets(tier):
-    if tier == "quick":
+def alphabets(tier, filt=True):
+    if tier == "quick" or not filt:
         return [OUT, IN, SOF, SETUP, PING, 0xC3], [0x2D, 0x00]
-    return [OUT, IN, SOF, SETUP, PING, 0xC3, 0x3A, 0x3D], [0x3A, 0x43, 0x2D]
+    return [OUT, IN, SOF, SETUP, PING, 0xC3, 0x3A, 0x3D], [0x3A, 0x43]
 
 
-def alpha_expr(tier):
-    B, A = alphabets(tier)
+def alpha_expr(tier, filt=True):
+    B, A = alphabets(tier, filt)
     return ("(flat_map (fun a => flat_map (fun b => map (fun c => c + 4 * b + 1024 * a) [0; 1; 2; 3]) "
             + "[" + "; ".join(map(str, B)) + "]) [" + "; ".join(map(str, A)) + "])")
 
@@ -87,9 +87,7 @@ def sweeps(tier):
                 ("sof_payloads", f"sweep_payloads {SOF} 1", 14, "SOF: all 2^11 frame numbers x 8 CRC error masks")]
     sw = [(f"pairs_{n}", f"sweep_pairs {p} 0", 16, f"{n} to the device's address: all 2^16 byte pairs after the PID")
           for n, p in (("out", OUT), ("in", IN), ("setup", SETUP), ("ping", PING), ("sof", SOF))]
-    sw += [("pairs_out_foreign", f"sweep_pairs {OUT} 1", 16, "OUT to address+1: all 2^16 byte pairs"),
-           ("pairs_in_foreign", f"sweep_pairs {IN} 64", 16, "IN to address+64: all 2^16 byte pairs"),
-           ("pairs_data0", f"sweep_pairs {0xC3} 0", 16, "DATA0 PID followed by all 2^16 byte pairs (never a token)")]
+    sw += [("pairs_out_foreign", f"sweep_pairs {OUT} 1", 16, "OUT to address+1: all 2^16 byte pairs")]
     return sw
 
 
@@ -160,11 +158,11 @@ def obligations(targets, tier):
     for t in targets:
         filt = "true" if t.filt else "false"
         if t.filt or tier != "quick":
-            B, A = alphabets(tier)
+            B, A = alphabets(tier, t.filt)
             obs.append(tie_explicit.rlock_alpha(
                 f"ob_{t.name}", t, St="td_state", mstep=f"td_step {filt}", enc="td_enc", dec="td_dec", wf="td_wf",
                 dec_enc="td_dec_enc", wf_step=f"(td_wf_step {filt})", m0="td_init", wf_m0="exact td_wf_init.",
-                alphabet=alpha_expr(tier), fuel=100000,
+                alphabet=alpha_expr(tier, t.filt), fuel=100000,
                 describe=(f"USBTokenDetector(filter_by_address={t.filt}) == FSM model, all traces of any length over rx_active/rx_valid x "
                           f"rx_data in {[hex(b) for b in B]} x address in {[hex(a) for a in A]}")))
         obs.append(tie.corr(f"corr_{t.name}", t, mstep=f"td_step {filt}", m0="td_init",
@@ -220,8 +218,8 @@ LEVEL_TEXT = ("Machine-checked proof. (1) For both filter modes and every UTMI r
               "relation; C01_new_token_iff / C01_token_fields / C01_new_frame_iff / C01_frame_next / C01_*_wellformed give the cycle-exact "
               "iff-statements). (2) The netlist regenerated from /repo (timer sliced away) is proved equal to the specification on all traces of "
               "any length over a finite input alphabet (certified product reachability, C01_tokdet) and on exhaustive single-packet sweeps from "
-              "reset (quick: all 2^11 payloads x 8 CRC error masks for SETUP and SOF; thorough: all 2^16 byte pairs for every token PID, "
-              "own and foreign address: C01_sweep_*).")
+              "reset (quick: all 2^11 payloads x 8 CRC error masks for SETUP and SOF; thorough: all 2^16 byte pairs after each of the five "
+              "token PIDs to the device's own address, and after OUT to a foreign address: C01_sweep_*).")
 LEVEL_NOTE = ("Trusted: Coq kernel + vm_compute, Amaranth elaboration, nir2coq.py/Netlist.v and harness/slice.py (validated each run against "
               "pysim of the unsliced module). The module has no size parameter and 2^17 input words per cycle, so the unbounded netlist tie is over "
               "a restricted byte/address alphabet; arbitrary bytes in arbitrary multi-packet histories are covered by the parametric model theorem "
